@@ -351,7 +351,8 @@ def check_windows(ctx, f, judged, k):
                   'the window loop runs over range(%s); required len(s) - k + 1 so that the last window ends at the end of '
                   'the string' % aff_show(a), inputs='a violation confined to the last (or a non-existing) window')
         # window slice
-        i = ('iter', it, nd.id)
+        from ..ctx import loop_vars
+        i = [t for t in loop_vars(f, nd).values() if t is not None][0]
         body = {n.id for n in f.nodes if nd.id in n.loops}
         okw = False
         seen = None
@@ -367,9 +368,10 @@ def check_windows(ctx, f, judged, k):
         # the arm is taken when len(s) >= k
         okarm = False
         for atom, pol in ctx.conds(f, nd):
-            if atom[0] == 'cmp' and is_call(atom[2], 'builtins.len') and atom[3] == k:
-                if (atom[1] == '>=' and pol) or (atom[1] == '<' and not pol):
-                    okarm = True
+            if atom[0] == 'cmp' and is_call(atom[3], 'builtins.len') and atom[2] == k and atom[1] == '<=' and pol:
+                okarm = True        # k <= len(s)
+            if atom[0] == 'cmp' and is_call(atom[2], 'builtins.len') and atom[3] == k and atom[1] == '<' and not pol:
+                okarm = True        # not (len(s) < k)
         run.check(okarm, 'R-FILTER', f, 'window-arm-iff-len>=k', nd.lineno, 'window arm taken iff len(s) >= k',
                   'the window arm is not selected by len(s) >= k', inputs='strings exactly one window long')
         return
